@@ -1,6 +1,6 @@
 //! Native replay: reads cases from stdin, one per line
 //!     <grammar> TAB <hex,hex,...> TAB <NAME=hex;NAME=hex;...>
-//! (hex = hex-encoded bytes of one argv item / env value; `-` for an empty list) and prints
+//! (argv items are `x` + hex-encoded bytes, env values plain hex; `-` for an empty list) and prints
 //!     <class> TAB <payload>
 //! where class is ok | stdout | stderr | completion | panic | unknown-grammar.
 use std::ffi::OsString;
@@ -28,7 +28,7 @@ fn main() {
         let args: Vec<OsString> = if a == "-" || a.is_empty() {
             Vec::new()
         } else {
-            a.split(',').map(|h| OsString::from_vec(unhex(h))).collect()
+            a.split(',').map(|h| OsString::from_vec(unhex(&h[1..]))).collect()
         };
         let mut set = Vec::new();
         if e != "-" && !e.is_empty() {
